@@ -358,6 +358,55 @@ def showI : Instr → String
 termination_by structural i => i
 end
 
+/-- what a program looks like in steady state, when every once it names at top level has
+completed: the bodies are not run -/
+def steady (prog : List Instr) : List Instr :=
+  prog.map (fun i => match i with | .once r _ => .once r [] | i => i)
+
+/-! ## Reading (the inverse of `showProg`; resource names of `resourceNames` are accepted
+next to numbers): `once 0 [once 4 [] acq 5 rel 5] acq FMT rel FMT` -/
+
+def tokens (s : String) : List String :=
+  (((s.replace "[" " [ ").replace "]" " ] ").splitOn " ").filter (fun t => t != "")
+
+def resourceOf (t : String) : Option Nat :=
+  match resourceNames.find? (fun p => p.2 == t) with
+  | some p => some p.1
+  | none => t.toNat?
+
+/-- parses instructions up to a closing bracket or the end; returns what is left -/
+def parseItems : Nat → List String → Option (List Instr × List String)
+  | 0, _ => none
+  | _ + 1, [] => some ([], [])
+  | _ + 1, "]" :: rest => some ([], "]" :: rest)
+  | fuel + 1, "acq" :: n :: rest => do
+      let r ← resourceOf n
+      let (is, rem) ← parseItems fuel rest
+      pure (.acq r :: is, rem)
+  | fuel + 1, "rel" :: n :: rest => do
+      let r ← resourceOf n
+      let (is, rem) ← parseItems fuel rest
+      pure (.rel r :: is, rem)
+  | fuel + 1, "done" :: n :: rest => do
+      let r ← resourceOf n
+      let (is, rem) ← parseItems fuel rest
+      pure (.done r :: is, rem)
+  | fuel + 1, "once" :: n :: "[" :: rest => do
+      let r ← resourceOf n
+      let (body, rem) ← parseItems fuel rest
+      match rem with
+      | "]" :: rem' =>
+          let (is, rem2) ← parseItems fuel rem'
+          pure (.once r body :: is, rem2)
+      | _ => none
+  | _ + 1, _ => none
+
+def parseProg (s : String) : Option (List Instr) :=
+  let toks := tokens s
+  match parseItems (toks.length + 1) toks with
+  | some (p, []) => some p
+  | _ => none
+
 /-! ## Bounded breadth-first search for a deadlock (a search aid, nothing is proved about it)
 
 States are identified by a key: per thread the measure of its remaining program (which
